@@ -46,6 +46,21 @@ def build_small(profile="dev"):
     """Rebuild harness_small against /repo's current working tree (hooks cfg on). Returns the binary path."""
     if profile in _built:
         return _built[profile]
+    global SMALL
+    if rv.ALT and not SMALL.startswith(os.path.join(rv.VERIF, "work")):
+        # runs against another tree (RV_REPO): build from a rewritten copy, never from the committed crate
+        import shutil
+        alt = os.path.join(rv.OUT, "harness_small")
+        rv.ensure_dir(alt)
+        for item in ("src", ".cargo"):
+            shutil.rmtree(os.path.join(alt, item), ignore_errors=True)
+            shutil.copytree(os.path.join(SMALL, item), os.path.join(alt, item))
+        shutil.copy(os.path.join(SMALL, "Cargo.lock"), os.path.join(alt, "Cargo.lock"))
+        with open(os.path.join(SMALL, "Cargo.toml")) as f:
+            toml = f.read().replace('path = "/repo/rarena-allocator"', 'path = "%s/rarena-allocator"' % os.path.realpath(rv.REPO))
+        with open(os.path.join(alt, "Cargo.toml"), "w") as f:
+            f.write(toml)
+        SMALL = alt
     cmd = ["cargo", "build", "--offline"] + (["--release"] if profile == "release" else [])
     env = dict(os.environ, CARGO_NET_OFFLINE="true")
     env.pop("RUSTFLAGS", None)
